@@ -13,7 +13,7 @@ PRIMARY = {
     'af11007': ['C14'], 'd4594d7': ['C19'], '5dee3dd': ['C19'], 'd6fb045': ['C20'], '3a4f30b': ['C05'],
     '25386e9': ['C16'], 'a6e0433': ['C18'], 'db882e5': ['C05'],
     'd77b828': ['C14'], 'e3a9a38': ['C04'], '54da3d0': ['C02'], 'ee6687e': ['C13'], '53a4476': ['C02'], 'f6f0f66': ['C03'], '82ade49': ['C04'], 'fac76fd': ['C05'],
-    '89eea52': ['C02'], '3f2a1c2': ['C13', 'C08'],
+    '89eea52': ['C02'], '3f2a1c2': ['C13', 'C08'], '6342c20': ['C01'], 'c507e29': ['C15'],
 }
 
 
